@@ -227,6 +227,7 @@ func main() {
 	conc.OptionsStar(run)
 	conc.ParamStorm(run)
 	conc.TruncateStorm(run)
+	conc.FirstUse(run)
 	run.Count("operations_recorded", totalOps)
 	run.Count("reads_overlapping_a_committed_write_same_key", contended)
 	run.Count("distinct_history_signatures", int64(len(sigs)))
